@@ -24,14 +24,16 @@ PROPS = {
     'C11': dict(units=['store'], assumptions=A_COMMON + A_POOL),
     'C12': dict(units=['store'], assumptions=A_COMMON),
     'C14': dict(units=['store'], assumptions=A_COMMON + A_CHAN),
-    'C15': dict(units=['store'], assumptions=A_COMMON + A_POOL),
+    'C15': dict(units=['store'], kani=['lock'], assumptions=A_COMMON + A_CHAN + A_POOL),
     'C16': dict(units=['store'], kani=['selector'], assumptions=A_COMMON),
     'C17': dict(units=['store'], assumptions=A_COMMON),
     'C18': dict(units=['store'], kani=['metrics'], assumptions=A_COMMON + A_CHAN),
     'C19': dict(units=['store'], assumptions=A_COMMON),
 }
+PROPS['C15']['also'] = ['C04']   # dropping a DroppableStore IS stop(): every obligation of C04 is an obligation of C15
 for _p in PROPS.values():
     _p.setdefault('kani', [])
+    _p.setdefault('also', [])
 
 _V = 'Verus proof of contracts on the extracted real functions'
 TEXT = {
